@@ -89,8 +89,10 @@ Definition le_flag (tol : T) (xs : list T) : T :=
 (* `basis == Basis.ggm(d)` (Basis.__eq__ after the shape test): np.allclose(basis, ggm, atol=basis._atol, rtol=0),
    i.e. |basis[k][i][j] - ggm[k][i][j]| <= atol for all entries *)
 Definition basis_devs (basis : list Matc) : list T :=
-  concat (build (d * d) (fun k => concat (build d (fun i => build d (fun j =>
-    osqrt Op (cabs2 Op (csub Op (mget Op (nthm basis k) i j) (mget Op (nthm ggm_basis k) i j)))))))).
+  let g := ggm_basis in
+  concat (build (d * d) (fun k => let bk := nthm basis k in let gk := nthm g k in
+    concat (build d (fun i => build d (fun j =>
+      osqrt Op (cabs2 Op (csub Op (mget Op bk i j) (mget Op gk i j)))))))).
 Definition basis_is_ggm_flag (basis : list Matc) : T := le_flag basis_atol (basis_devs basis).
 
 (* the path switch
@@ -190,8 +192,8 @@ End Superop.
 (* The index arrays exactly as the source computes them (Basis.ggm and ggm_expand):
      j = np.repeat(np.arange(d-1), np.arange(d-1, 0, -1))
      k = np.arange(1, n_sym+1) - (j*(2*d - j - 3)/2).astype(int),   n_sym = int(d*(d-1)/2)
-   Plain nat code (not part of the Ops-polymorphic model); Proofs/SuperopEx.v checks that it produces
-   the pair list [ggm_pairs] used by the model (machine-checked for every d < 64).                    *)
+   Plain nat code (not part of the Ops-polymorphic model); Proofs/SuperopIdx.v proves that it produces
+   the pair list [ggm_pairs] used by the model, for every d.                    *)
 Definition ggm_j_src (d : nat) : list nat := concat (build (d - 1) (fun j => repeat j (d - 1 - j))).
 Definition ggm_k_src (d : nat) : list nat :=
   map (fun tj => (fst tj - (snd tj * (2 * d - snd tj - 3)) / 2)%nat)
